@@ -65,7 +65,9 @@ Proof.
     assert (Hid : id = (2 * b + 1) mod 65536 /\ t' = set_mru t b true) by (split; congruence).
     destruct Hid as [-> ->]. clear H. apply bytes_eqb_eq in E1.
     rewrite N.mod_small by lia.
-    rewrite <- N.div2_spec, N.div2_succ_double, N.testbit_odd_0.
+    replace (N.shiftr (2 * b + 1) 1) with b
+      by (rewrite N.shiftr_div_pow2; change (2 ^ 1) with 2; apply (N.div_unique _ 2 b 1); lia).
+    rewrite N.testbit_odd_0.
     replace (nb t <=? b) with false by (symmetry; apply N.leb_gt; lia).
     rewrite E1. split; [reflexivity | lia].
 Qed.
@@ -158,21 +160,31 @@ Qed.
 
 (* --------------------------------------------------------------- round deltas ---- *)
 
+Lemma varuint_value_cases : forall d v, is_varuint d = true -> varuint_value d = Some v ->
+  (exists b, d = [b] /\ b < 128 /\ v = b) \/
+  (exists m r k, d = m :: r /\ List.length r = k /\ v = be_val 0 r /\
+     ((m = 204 /\ k = 1%nat) \/ (m = 205 /\ k = 2%nat) \/ (m = 206 /\ k = 4%nat) \/ (m = 207 /\ k = 8%nat))).
+Proof.
+  intros d v Hv Hval.
+  apply is_varuint_cons in Hv as (b & r & k & -> & Hk & Hlen).
+  apply varuint_more_cases in Hk.
+  destruct Hk as [[-> Hk]|[[-> Hk]|[[-> Hk]|[[-> Hk]|[Hlt Hk]]]]]; subst k.
+  1-4: right; destruct r as [|x r]; [simpl in Hlen; discriminate|];
+       unfold varuint_value in Hval; rewrite Hlen in Hval; inversion Hval; subst v;
+       eexists _, (x :: r), _; repeat split; try reflexivity; try exact Hlen; auto 6.
+  left. destruct r; [|simpl in Hlen; discriminate]. simpl in Hval. injection Hval as <-.
+  exists b. auto.
+Qed.
+
 Lemma varuint_value_bound : forall d v,
   is_varuint d = true -> bytes_ok d -> varuint_value d = Some v -> v < 18446744073709551616.
 Proof.
   intros d v Hv Hok Hval.
-  apply is_varuint_cons in Hv as (b & r & k & -> & Hk & Hlen).
-  inversion Hok as [|? ? Hb Hr]; subst.
-  apply varuint_more_cases in Hk.
-  assert (Hr' : be_val 0 r < 256 ^ N.of_nat (List.length r)) by (apply be_val0_bound; assumption).
-  destruct r as [|x r].
-  - simpl in Hval. inversion Hval; subst. lia.
-  - unfold varuint_value in Hval.
-    destruct Hk as [[-> Hk]|[[-> Hk]|[[-> Hk]|[[-> Hk]|[_ Hk]]]]]; rewrite Hk in *;
-      try (simpl in Hk; discriminate);
-      inversion Hval; subst v;
-      eapply N.lt_le_trans; try exact Hr'; vm_compute; discriminate.
+  destruct (varuint_value_cases d v Hv Hval) as [(b & -> & Hb & ->)|(m & r & k & -> & Hlen & -> & Hk)]; [lia|].
+  assert (Hr : bytes_ok r) by (inversion Hok; assumption).
+  pose proof (be_val0_bound r Hr) as B. rewrite Hlen in B.
+  destruct Hk as [[_ ->]|[[_ ->]|[[_ ->]|[_ ->]]]];
+    (eapply N.lt_le_trans; [exact B|]; vm_compute; discriminate).
 Qed.
 
 (* the length test of the fix decides canonicity: an accepted uint encoding whose length is
@@ -182,25 +194,18 @@ Lemma canonical_by_length : forall d v,
   List.length d = varuint_size v -> append_uint64 v = d.
 Proof.
   intros d v Hv Hok Hval Hlen.
-  apply is_varuint_cons in Hv as (b & r & k & -> & Hk & Hr).
-  inversion Hok as [|? ? Hb Hokr]; subst.
-  apply varuint_more_cases in Hk.
-  pose proof (be_bytes_val r Hokr) as Hbb.
   unfold varuint_size in Hlen. unfold append_uint64.
-  destruct r as [|x r].
-  - simpl in Hval. inversion Hval; subst v.
-    destruct Hk as [[-> Hk]|[[-> Hk]|[[-> Hk]|[[-> Hk]|[Hlt Hk]]]]]; try (simpl in Hk; discriminate).
-    replace (b <=? 127) with true by (symmetry; apply N.leb_le; lia). reflexivity.
-  - unfold varuint_value in Hval.
-    destruct Hk as [[-> Hk]|[[-> Hk]|[[-> Hk]|[[-> Hk]|[_ Hk]]]]]; rewrite Hk in *;
-      try (simpl in Hk; discriminate);
-      inversion Hval; subst v;
-      simpl List.length in Hlen;
-      destruct (be_val 0 (x :: r) <=? 127); try (exfalso; lia);
-      destruct (be_val 0 (x :: r) <=? 255); try (exfalso; lia);
-      destruct (be_val 0 (x :: r) <=? 65535); try (exfalso; lia);
-      destruct (be_val 0 (x :: r) <=? 4294967295); try (exfalso; lia);
-      rewrite <- Hk, Hbb; reflexivity.
+  destruct (varuint_value_cases d v Hv Hval) as [(b & -> & Hb & ->)|(m & r & k & -> & Hr & -> & Hk)].
+  - replace (b <=? 127) with true by (symmetry; apply N.leb_le; lia). reflexivity.
+  - assert (Hokr : bytes_ok r) by (inversion Hok; assumption).
+    pose proof (be_bytes_val r Hokr) as Hbb. rewrite Hr in Hbb.
+    simpl List.length in Hlen. rewrite Hr in Hlen.
+    destruct Hk as [[-> ->]|[[-> ->]|[[-> ->]|[-> ->]]]];
+      destruct (be_val 0 r <=? 127); try (exfalso; lia);
+      destruct (be_val 0 r <=? 255); try (exfalso; lia);
+      destruct (be_val 0 r <=? 65535); try (exfalso; lia);
+      destruct (be_val 0 r <=? 4294967295); try (exfalso; lia);
+      rewrite Hbb; reflexivity.
 Qed.
 
 Lemma w64_small : forall x, x < 18446744073709551616 -> w64 x = x.
@@ -254,8 +259,8 @@ Proof.
   intros rc idx s p q Hrc Hidx.
   assert (Crc : rc = 0 \/ rc = 1 \/ rc = 2 \/ rc = 3) by lia.
   assert (Cidx : idx = 0 \/ idx = 1 \/ idx = 2 \/ idx = 3 \/ idx = 4 \/ idx = 5 \/ idx = 6 \/ idx = 7) by lia.
-  destruct Crc as [->|[->|[->|->]]];
-    destruct Cidx as [->|[->|[->|[->|[->|[->|[->|->]]]]]]];
+  destruct Crc as [-> | [-> | [-> | ->]]];
+    destruct Cidx as [-> | [-> | [-> | [-> | [-> | [-> | [-> | ->]]]]]]];
     destruct s, p, q; vm_compute; auto.
 Qed.
 
@@ -351,7 +356,7 @@ Qed.
 Lemma bit_land_30 : forall h i, (i = 1 \/ i = 2 \/ i = 3 \/ i = 4) -> bit (N.land h 30) i = bit h i.
 Proof.
   intros h i Hi. unfold bit. rewrite N.land_spec.
-  destruct Hi as [->|[->|[->|->]]]; change (N.testbit 30 _) with true; apply andb_true_r.
+  destruct Hi as [-> | [-> | [-> | ->]]]; change (N.testbit 30 _) with true; apply andb_true_r.
 Qed.
 
 Lemma prop_bytes_mask : forall hdr0 p, prop_bytes (N.land hdr0 30) p = prop_bytes hdr0 p.
@@ -379,9 +384,9 @@ Proof.
   unfold new_state. intros n s H Hn.
   apply bind_some in H as (a & Ha & H). apply bind_some in H as (b & Hb & H).
   apply bind_some in H as (c & Hc & H). inversion H; subst; clear H.
-  unfold wf_state; simpl. repeat split; try (eapply wf_new_lru; eassumption).
-  - unfold wf_win, new_win. simpl. lia.
-  - lia.
+  unfold wf_state; simpl.
+  split; [eapply wf_new_lru; eassumption|]. split; [eapply wf_new_lru; eassumption|].
+  split; [eapply wf_new_lru; eassumption|]. split; [unfold wf_win, new_win; simpl; lia | lia].
 Qed.
 
 Lemma norm_frame_cons : forall h0 h1 r, norm_frame (h0 :: h1 :: r) = h0 :: 0 :: r.
@@ -418,7 +423,7 @@ Proof.
   (* facts about the pieces *)
   assert (Hokrnd : bytes_ok rndData).
   { simpl in Hok. inversion Hok as [|? ? _ Hok1]; subst. inversion Hok1 as [|? ? _ Hok2]; subst.
-    repeat (apply bytes_ok_app in Hok2 as [_ Hok2]).
+    do 6 (apply bytes_ok_app in Hok2 as [_ Hok2]).
     apply bytes_ok_app in Hok2 as [Hok2 _]. exact Hok2. }
   pose proof (varuint_value_bound _ _ Vrnd Hokrnd Hrnd) as Brnd.
   set (idx := win_lookup (win st) prop) in *.
@@ -467,19 +472,19 @@ Proof.
   { intros w' Hw. unfold wf_state; simpl. auto. }
   destruct (idx =? 0) eqn:Eidx.
   - (* literal proposal: both sides insert it into the window *)
-    apply N.eqb_eq in Eidx. rewrite Eidx. simpl (0 =? 0). cbn iota.
-    rewrite <- !app_assoc.
-    replace (prop_bytes h0 prop) with (dig ++ encdig ++ oper ++ oprop)
-      by (symmetry; apply prop_bytes_mk_entry; assumption).
-    rewrite <- !app_assoc.
+    assert (Hpb0 : prop_bytes h0 prop = dig ++ encdig ++ oper ++ oprop)
+      by (apply prop_bytes_mk_entry; assumption).
+    rewrite Hpb0.
+    replace ((dig ++ encdig ++ oper ++ oprop) ++ rndout ++ sout ++ step ++ pout ++ p2out ++ sigs)
+      with (dig ++ encdig ++ oper ++ oprop ++ rndout ++ sout ++ step ++ pout ++ p2out ++ sigs)
+      by (rewrite <- !app_assoc; reflexivity).
     rewrite read_prop_app by assumption. cbn [bind]. fold prop.
     split; [|apply Wst'; apply wf_win_insert; assumption].
-    rewrite <- (Htail (win_insert (win st) prop)). cbv zeta. reflexivity.
+    exact (Htail (win_insert (win st) prop)).
   - (* window reference *)
     apply N.eqb_neq in Eidx.
     destruct (win_ref_valid (win st) prop idx eq_refl Eidx) as [Hby _].
-    replace (idx =? 0) with false by (symmetry; apply N.eqb_neq; assumption).
     rewrite Hby. cbn [bind]. simpl app.
     split; [|apply Wst'; assumption].
-    rewrite <- (Htail (win st)). cbv zeta. reflexivity.
+    exact (Htail (win st)).
 Qed.
